@@ -204,6 +204,9 @@ class MultiportXORMemory(BaseMultiportMemory):
     def elaborate(self, platform):
         m = TModule()
 
+        if not self.write_ports:
+            self.write_port()  # storage is created per write port: a memory without any (a ROM) still holds init
+
         self._frozen = True
 
         write_xors = [Value.cast(0) for _ in self.write_ports]
@@ -470,6 +473,9 @@ class MultiportILVTMemory(BaseMultiportMemory):
 
     def elaborate(self, platform):
         m = Module()
+
+        if not self.write_ports:
+            self.write_port()  # storage is created per write port: a memory without any (a ROM) still holds init
 
         self._frozen = True
 
